@@ -19,6 +19,8 @@ if TYPE_CHECKING:
 
 # this prevents two SubsectionIO instances on the same file object from interfering with eachother
 _lock_objects = WeakValueDictionary()
+# looking a lock up and registering a new one is one step: two threads opening their first windows on a file get the same lock
+_lock_objects_lock = Lock()
 
 
 class SubsectionIO(RawIOBase):
@@ -38,11 +40,12 @@ class SubsectionIO(RawIOBase):
 
         # get existing Lock object for file, or create a new one
         file_id = id(file)
-        try:
-            self._lock = _lock_objects[file_id]
-        except KeyError:
-            self._lock = Lock()
-            _lock_objects[file_id] = self._lock
+        with _lock_objects_lock:
+            try:
+                self._lock = _lock_objects[file_id]
+            except KeyError:
+                self._lock = Lock()
+                _lock_objects[file_id] = self._lock
 
         self._reader = file
         self._offset = offset
